@@ -258,6 +258,14 @@ def gen_spec(rng, cls, shape=None, focus=None):
       kw["use_ste"] = False
   else:
     raise ValueError(cls)
+  if cls in ("quantized_linear", "quantized_bits", "quantized_relu",
+             "quantized_po2", "quantized_relu_po2", "quantized_hswish") and \
+      focus in ("c07", "c09"):
+    # variable-backed knob requested at construction (built on first call)
+    if P(0.12):
+      kw["use_variables"] = True
+    if P(0.08):
+      kw["var_name"] = "qv"
   return {"cls": cls, "kw": kw, "shape": shape}
 
 
@@ -267,12 +275,14 @@ def gen_spec(rng, cls, shape=None, focus=None):
 # quantizer configured with exactly that option (and, for pairs, two options).
 OPTION_PROBES = {
     "quantized_linear": [
+        ("use_variables", True, {"qnoise_factor": 0.5}), ("var_name", "qv"),
         ("bits", 4), ("integer", 2), ("symmetric", 0), ("keep_negative", False),
         ("alpha", "auto"), ("alpha", "auto_po2"), ("alpha", 0.5),
         ("use_stochastic_rounding", True), ("qnoise_factor", 0.5),
         ("scale_axis", 0, {"alpha": "auto"}),
     ],
     "quantized_bits": [
+        ("use_variables", True, {"qnoise_factor": 0.5}), ("var_name", "qv"),
         ("bits", 4), ("integer", 2), ("symmetric", 1), ("keep_negative", False),
         ("alpha", "auto"), ("alpha", "auto_po2"), ("alpha", 0.5),
         ("use_stochastic_rounding", True), ("qnoise_factor", 0.5),
@@ -321,6 +331,7 @@ OPTION_PROBES = {
         ("temperature", 1.0), ("use_real_sigmoid", False),
     ],
     "quantized_relu": [
+        ("use_variables", True, {"qnoise_factor": 0.5}), ("var_name", "qv"),
         ("bits", 4), ("integer", 2), ("use_sigmoid", 1),
         ("negative_slope", 0.25), ("use_stochastic_rounding", True),
         ("relu_upper_bound", 0.75, {"is_quantized_clip": False}),
@@ -342,6 +353,7 @@ OPTION_PROBES = {
         ("use_stochastic_rounding", True),
     ],
     "quantized_po2": [
+        ("use_variables", True, {"qnoise_factor": 0.5}), ("var_name", "qv"),
         ("bits", 4), ("max_value", 2.0), ("max_value", 0.5),
         ("max_value", 4.0, {"bits": 2}), ("max_value", 1.0, {"bits": 3}),
         ("use_stochastic_rounding", True), ("quadratic_approximation", True),
@@ -350,6 +362,7 @@ OPTION_PROBES = {
         ("use_ste", False, {"qnoise_factor": 0.5}),
     ],
     "quantized_relu_po2": [
+        ("use_variables", True, {"qnoise_factor": 0.5}), ("var_name", "qv"),
         ("bits", 4), ("max_value", 2.0), ("negative_slope", 0.25),
         ("max_value", 4.0, {"bits": 1}), ("max_value", 0.5, {"bits": 2}),
         ("max_value", 3.0, {"bits": 2, "quadratic_approximation": True}),
@@ -358,6 +371,7 @@ OPTION_PROBES = {
         ("use_ste", False, {"qnoise_factor": 0.5}),
     ],
     "quantized_hswish": [
+        ("use_variables", True, {"qnoise_factor": 0.5}), ("var_name", "qv"),
         ("bits", 4), ("integer", 2), ("symmetric", 1), ("alpha", 0.5),
         ("use_stochastic_rounding", True), ("qnoise_factor", 0.5),
         ("relu_shift", 2), ("relu_upper_bound", 4),
